@@ -28,8 +28,8 @@ def boot(real_colorama: bool = False, quiet: bool = True):
     if not real_colorama:
         P.colorama.init = lambda *a, **k: None
     P.DEFAULT_PRINTER.quiet = quiet
-    import logging
-    logging.getLogger("graphtage").setLevel(logging.ERROR)
+    from gv import monitors
+    monitors.install_warning_trap()
     _booted = True
     return graphtage
 
